@@ -485,12 +485,12 @@ def replay(doc):
 
 
 def jobs(tier, seed):
-    n, shards = (72, 8) if tier == "quick" else (1600, 16)
+    n, shards = (72, 8) if tier == "quick" else (6400, 16)
     out = [{"name": "seeds-%d" % k, "kind": "seeds", "n": n // shards, "seed": seed * 1000 + 170 + k,
             "shrink": 12 if tier == "quick" else 80} for k in range(shards)]
     if tier == "thorough":
         # coverage-guided campaign: 8 processes, half of them from an empty corpus
         for k in range(8):
-            out.append({"name": "fuzz-%d" % k, "kind": "fuzz", "runs": 60000, "seed": seed * 1000 + 700 + k,
+            out.append({"name": "fuzz-%d" % k, "kind": "fuzz", "runs": 300000, "seed": seed * 1000 + 700 + k,
                         "corpus": k % 2 == 0, "timeout": 5400})
     return out
